@@ -145,7 +145,12 @@ def drive(exe, lines, timeout=900, max_crashes=6):
             if not (ln.startswith("ok") or ln.startswith("cfg ") or ln.startswith("curve") ):
                 continue
             if i + k >= len(lines): break
-            res[i + k] = ln.split()[1:] if ln.startswith("ok") else ln
+            if ln.startswith("ok"):
+                t = ln.split()
+                if t[-1] != ";": break                   # row cut short: the process died inside it
+                res[i + k] = t[1:-1]
+            else:
+                res[i + k] = ln
             k += 1
         if rc == 0 and i + k >= len(lines): break
         if i + k >= len(lines):
@@ -282,7 +287,7 @@ def make_corpus(ctx, cases, rng):
     """rows of TLC -> protocol lines (identical for every build).  cap D for every row; a seeded share of the rows is
     repeated with cap M.  meta['curve'] / meta['exc'] let run_build select rows per build."""
     C = Corpus()
-    mshare = 0.12 if ctx.quick else 0.25
+    mshare = 0.12 if ctx.quick else 0.2
     def caps(): return "DM" if rng.random() < mshare else "D"
     hexs = lambda ks: " ".join("%x" % k for k in ks)
     for (mod, nm), cs in sorted(cases.items()):
@@ -415,7 +420,8 @@ def select_rows(ctx, cfg, bi, C, rng):
     """which rows this build runs.  The suite's configuration (bi = 0) runs everything.  The other builds run add / sub /
     dbl / dbl_n everywhere, the multiplier rows (mul, mulbp, twin) of the 8-bit curves on one (quick) or two (thorough)
     of the four curves, rotating with the build number, E13 always and E16M3 always (thorough) or when the digit size
-    lets the comb / window code see its scalars (quick)."""
+    lets the comb / window code see its scalars (quick).  Multiplier rows that build a wide table per call, and the
+    multiplier rows of 128-bit-digit builds in the thorough tier, are sampled (seeded); stats["rows"] says how many ran."""
     e = eff(cfg)
     allowed = None; mult_on = None
     if bi > 0:
@@ -427,11 +433,13 @@ def select_rows(ctx, cfg, bi, C, rng):
             two = {TOY8[bi % 4], TOY8[(bi // 4 + bi + 1) % 4]}
             mult_on = two | {a for a, b in ALIAS.items() if b in two} | set(TOYBIG)
     share = unk_share(cfg)
+    slow = 0.5 if (cfg["digit"] == 128 and bi > 0 and not ctx.quick) else 1.0    # no double-digit type: 3x slower builds
     sel = []
     for i, m in enumerate(C.meta):
         if allowed is not None and m["curve"] not in allowed: continue
         mult = m["op"] in ("mul", "mulbp", "twin", "twinbp")
         if mult_on is not None and mult and m["curve"] not in mult_on: continue
+        if slow < 1.0 and mult and not m["exc"] and rng.random() > slow: continue
         if share < 1.0 and (m["op"] == "mul" or (m["op"] == "twinbp" and e["twin_eff"] == 1)):
             if rng.random() > share * (2 if m["exc"] else 1): continue
         sel.append(i)
@@ -495,7 +503,7 @@ def run_rows(cfg, exe, C, sel, fails, stats, per_key):
                                       {"config": cfg_defs(cfg), "line": C.lines[i][:2000], "crash": list(k)}))
                 continue
             if len(r) != len(exp):
-                raise common.Infra("driver answered %d results for %d expected: %s" % (len(r), len(exp), C.lines[i][:200]))
+                raise common.Infra("driver answered %d results for %d expected (%s): %s" % (len(r), len(exp), r[:2], C.lines[i][:200]))
             stats["evaluations"] += len(exp)
             if r == exp: continue
             seen = set()
